@@ -8,6 +8,7 @@ mod p_history;
 mod p_model;
 mod p_score;
 mod p_sentence;
+mod p_train;
 mod sut;
 
 use ctx::Ctx;
@@ -68,6 +69,10 @@ fn main() {
         "C15" => p_filters::run_c15(&mut ctx, from, to),
         "C16n" => p_filters::run_c16n(&mut ctx, from, to),
         "C16s" => p_filters::run_c16s(&mut ctx, from, to),
+        "C09" => p_train::run_c09(&mut ctx, from, to),
+        "C10" => p_train::run_c10(&mut ctx, from, to),
+        "C11" => p_train::run_c11(&mut ctx, from, to),
+        "C12" => p_train::run_c12(&mut ctx, from, to),
         "C02x" => p_sentence::run_c02x(&mut ctx, from, to),
         "C02r" => p_sentence::run_c02r(&mut ctx, from, to),
         "C03" => p_sentence::run_c03(&mut ctx, from, to),
